@@ -553,7 +553,7 @@ func c35Run(c *core.Ctx, raw json.RawMessage) {
 			if allUnauth && len(op.Frames) > 0 {
 				c.Probe("leak_judged")
 				if leak := hostile.Leak(rec.Resp, hostile.Markers); leak != "" {
-					c.Violate("leak", "%s carried no valid credentials but the node sent database content: %s", what, leak)
+					c.Violate("leak", "%s carried no credentials authorised for what it asked, but the node sent database content: %s", what, leak)
 					return
 				}
 			}
